@@ -118,12 +118,12 @@ fn linear<F: Fl>(em: &mut Em, rng: &mut Rng, sw: &mut Sweep) {
         let params = LinearRegression::new().with_intercept(it == 0);
         let ds2 = ds.clone();
         rt(em, sw, "linfa-linear::LinearRegression", tag, Norm::Exact, &params, &|a, b, ctx, class| {
-            ctx.require(a == b || a != a, "equal", class, || format!("{:?} vs {:?}", a, b)); dbg_same(ctx, class, a, b);
+            ctx.require(a == b || (a != a && super::value_has_nan()), "equal", class, || format!("{:?} vs {:?}", a, b)); dbg_same(ctx, class, a, b);
             refit_same(ctx, class, &|| fp::<FittedLinearRegression<F>, _>(a.fit(&ds2)), &|| fp::<FittedLinearRegression<F>, _>(b.fit(&ds2)));
         });
         let model: FittedLinearRegression<F> = params.fit(&ds).unwrap();
         rt(em, sw, "linfa-linear::FittedLinearRegression", tag, Norm::Exact, &model, &|a, b, ctx, class| {
-            ctx.require(a == b || a != a, "equal", class, || format!("{:?} vs {:?}", a, b)); dbg_same(ctx, class, a, b);
+            ctx.require(a == b || (a != a && super::value_has_nan()), "equal", class, || format!("{:?} vs {:?}", a, b)); dbg_same(ctx, class, a, b);
             same_arr(ctx, "accessors", class, "params", a.params(), b.params());
             ctx.require(fb(a.intercept()) == fb(b.intercept()), "accessors", class, || "intercept".into());
             same_arr(ctx, "predict", class, "predict", &a.predict(&fresh), &b.predict(&fresh));
@@ -131,7 +131,7 @@ fn linear<F: Fl>(em: &mut Em, rng: &mut Rng, sw: &mut Sweep) {
     }
     for link in [Link::Identity, Link::Log, Link::Logit] {
         rt(em, sw, "linfa-linear::Link", tag, Norm::Exact, &link, &|a, b, ctx, class| {
-            ctx.require(a == b || a != a, "equal", class, || format!("{:?} vs {:?}", a, b)); dbg_same(ctx, class, a, b);
+            ctx.require(a == b || (a != a && super::value_has_nan()), "equal", class, || format!("{:?} vs {:?}", a, b)); dbg_same(ctx, class, a, b);
         });
     }
 }
@@ -150,17 +150,70 @@ pub fn fp<T: serde::Serialize, E: std::fmt::Display>(r: Result<T, E>) -> String 
     }
 }
 
+/// per type: (refit comparisons really made, skipped because the original's own fits differ)
+pub static REFIT_BY_TYPE: std::sync::Mutex<std::collections::BTreeMap<String, (u64, u64)>> = std::sync::Mutex::new(std::collections::BTreeMap::new());
+
+fn type_of_class(class: &str) -> String {
+    let t = class.strip_prefix("type=").unwrap_or(class);
+    t.split(":fmt=").next().unwrap_or(t).to_string()
+}
+
+pub fn refit_skipped(class: &str) {
+    NONDET.fetch_add(1, std::sync::atomic::Ordering::Relaxed);
+    REFIT_BY_TYPE.lock().unwrap().entry(type_of_class(class)).or_insert((0, 0)).1 += 1;
+}
+
+/// types whose refit is documented / known to differ from fit to fit (no comparison possible): none at the type
+/// level — `KMeansInit::KMeansPara` is skipped per instance, the other initialisations of the same type are compared
+pub const REVIEWED_NONDET_TYPES: &[&str] = &[];
+
+/// a type whose refit comparisons were ALL skipped as non-deterministic is reported: the skip must not swallow a
+/// whole estimator (e.g. a hash-order dependent reduction introduced into its `fit`)
+pub fn refit_cover(em: &mut Em) {
+    let m = REFIT_BY_TYPE.lock().unwrap().clone();
+    for (ty, (cmp, skipped)) in m {
+        em.case(format!("#cover refit type={}", ty), |ctx| {
+            ctx.require(cmp > 0 || skipped == 0 || REVIEWED_NONDET_TYPES.contains(&ty.as_str()), "refit", &format!("type={}:all_skipped", ty), || {
+                format!("{}: all {} refit comparisons were skipped because the original parameters do not refit to the same model twice; restored parameter sets were never compared", ty, skipped)
+            });
+            "-".into()
+        });
+    }
+}
+
+/// "refit to the same model" presupposes that a parameter set (which holds its generator state) determines the model:
+/// when the *original* refits differently from call to call the clause cannot be established for it.  That is
+/// reported, not silently skipped — except for the reviewed case (`KMeansInit::KMeansPara`, skipped by its caller).
+fn nondet_reported(ctx: &mut Ctx, class: &str) {
+    if REVIEWED_NONDET_TYPES.contains(&type_of_class(class).as_str()) {
+        return;
+    }
+    ctx.fail("refit", &format!("{}:original_nondeterministic", class), "the original parameter set does not refit to the same model twice (several fits on the same data differ): the restored one cannot be compared".to_string());
+}
+
 /// restored parameters pass/fail validation like the originals and refit to the same model.
-/// When fitting the *original* twice already gives different models (k-means||, documented as
-/// non-deterministic) the comparison is skipped and counted.
+/// When fitting the *original* several times already gives different models the comparison is skipped and counted
+/// (per type: `refit_cover`).
 pub fn refit_same(ctx: &mut Ctx, class: &str, fa: &dyn Fn() -> String, fb_: &dyn Fn() -> String) {
     let (a1, a2, a3) = (fa(), fa(), fa());
     if a1 != a2 || a1 != a3 {
-        NONDET.fetch_add(1, std::sync::atomic::Ordering::Relaxed);
+        refit_skipped(class);
+        nondet_reported(ctx, class);
         return;
     }
     let b = fb_();
+    if a1 != b {
+        // a rarely non-deterministic fit passes the screen above with noticeable probability: look again before
+        // blaming the round trip (two more fits of the original and one more of the restored value)
+        let (a4, a5, b2) = (fa(), fa(), fb_());
+        if a4 != a1 || a5 != a1 || b2 != b {
+            refit_skipped(class);
+            nondet_reported(ctx, class);
+            return;
+        }
+    }
     REFIT_COMPARED.fetch_add(1, std::sync::atomic::Ordering::Relaxed);
+    REFIT_BY_TYPE.lock().unwrap().entry(type_of_class(class)).or_insert((0, 0)).0 += 1;
     if a1.starts_with("err:") != b.starts_with("err:") {
         ctx.fail("validate", class, format!("original: {} restored: {}", &a1[..a1.len().min(80)], &b[..b.len().min(80)]));
     } else if a1 != b {
@@ -176,7 +229,7 @@ pub fn refit_same(ctx: &mut Ctx, class: &str, fa: &dyn Fn() -> String, fb_: &dyn
 macro_rules! eqb {
     () => {
         &|a, b, ctx: &mut Ctx, class: &str| {
-            ctx.require(a == b || a != a, "equal", class, || format!("{:?} vs {:?}", a, b));
+            ctx.require(a == b || (a != a && super::value_has_nan()), "equal", class, || format!("{:?} vs {:?}", a, b));
             dbg_same(ctx, class, a, b);
         }
     };
@@ -204,7 +257,7 @@ fn $fname(em: &mut Em, rng: &mut Rng, sw: &mut Sweep) {
         let ds = Dataset::new(x.clone(), y.clone());
         let model: FittedIsotonicRegression<F> = IsotonicRegression::new().fit(&ds).unwrap();
         rt(em, sw, "linfa-linear::FittedIsotonicRegression", tag, Norm::Exact, &model, &|a, b, ctx, class| {
-            ctx.require(a == b || a != a, "equal", class, || format!("{:?} vs {:?}", a, b)); dbg_same(ctx, class, a, b);
+            ctx.require(a == b || (a != a && super::value_has_nan()), "equal", class, || format!("{:?} vs {:?}", a, b)); dbg_same(ctx, class, a, b);
             same_arr(ctx, "predict", class, "predict", &a.predict(&fresh), &b.predict(&fresh));
         });
         // Tweedie
@@ -221,13 +274,13 @@ fn $fname(em: &mut Em, rng: &mut Rng, sw: &mut Sweep) {
         let vp: TweedieRegressorValidParams<F> = pr.check().unwrap();
         let ds2 = ds.clone();
         rt(em, sw, "linfa-linear::TweedieRegressorValidParams", tag, Norm::Exact, &vp, &|a, b, ctx, class| {
-            ctx.require(a == b || a != a, "equal", class, || format!("{:?} vs {:?}", a, b)); dbg_same(ctx, class, a, b);
+            ctx.require(a == b || (a != a && super::value_has_nan()), "equal", class, || format!("{:?} vs {:?}", a, b)); dbg_same(ctx, class, a, b);
             ctx.require(fb(a.alpha()) == fb(b.alpha()) && fb(a.power()) == fb(b.power()) && a.link() == b.link() && a.max_iter() == b.max_iter() && fb(a.tol()) == fb(b.tol()) && a.fit_intercept() == b.fit_intercept(), "accessors", class, || "parameter accessor differs".into());
             refit_same(ctx, class, &|| fp(a.fit(&ds2)), &|| fp(b.fit(&ds2)));
         });
         if let Ok(model) = vp.fit(&ds) {
             rt(em, sw, "linfa-linear::TweedieRegressor", tag, Norm::Exact, &model, &|a: &TweedieRegressor<F>, b, ctx, class| {
-                ctx.require(a == b || a != a, "equal", class, || format!("{:?} vs {:?}", a, b)); dbg_same(ctx, class, a, b);
+                ctx.require(a == b || (a != a && super::value_has_nan()), "equal", class, || format!("{:?} vs {:?}", a, b)); dbg_same(ctx, class, a, b);
                 same_arr(ctx, "predict", class, "predict", &a.predict(&fresh), &b.predict(&fresh));
             });
         }
@@ -249,13 +302,13 @@ fn bayes<F: Fl>(em: &mut Em, rng: &mut Rng, sw: &mut Sweep) {
         let vp: GaussianNbValidParams<F, usize> = GaussianNb::params().var_smoothing(F::cast([1e-9, 1e-3, 0.25][rng.below(3)])).check().unwrap();
         let ds2 = ds.clone();
         rt(em, sw, "linfa-bayes::GaussianNbValidParams", tag, Norm::Exact, &vp, &|a, b, ctx, class| {
-            ctx.require(a == b || a != a, "equal", class, || format!("{:?} vs {:?}", a, b)); dbg_same(ctx, class, a, b);
+            ctx.require(a == b || (a != a && super::value_has_nan()), "equal", class, || format!("{:?} vs {:?}", a, b)); dbg_same(ctx, class, a, b);
             ctx.require(fb(a.var_smoothing()) == fb(b.var_smoothing()), "accessors", class, || "var_smoothing".into());
             refit_same(ctx, class, &|| fp(a.fit(&ds2)), &|| fp(b.fit(&ds2)));
         });
         let model: GaussianNb<F, usize> = vp.fit(&ds).unwrap();
         rt(em, sw, "linfa-bayes::GaussianNb", tag, Norm::SortMaps, &model, &|a, b, ctx, class| {
-            ctx.require(a == b || a != a, "equal", class, || format!("{:?} vs {:?}", a, b));
+            ctx.require(a == b || (a != a && super::value_has_nan()), "equal", class, || format!("{:?} vs {:?}", a, b));
             // (a degenerate model whose predict panics on NaN scores must do so before and after alike)
             let pa = std::panic::catch_unwind(std::panic::AssertUnwindSafe(|| a.predict(&fresh))).ok();
             let pb = std::panic::catch_unwind(std::panic::AssertUnwindSafe(|| b.predict(&fresh))).ok();
@@ -268,13 +321,13 @@ fn bayes<F: Fl>(em: &mut Em, rng: &mut Rng, sw: &mut Sweep) {
         let vp: MultinomialNbValidParams<F, usize> = MultinomialNb::params().alpha(F::cast([1.0, 0.5, 0.01][rng.below(3)])).check().unwrap();
         let ds2 = dsc.clone();
         rt(em, sw, "linfa-bayes::MultinomialNbValidParams", tag, Norm::Exact, &vp, &|a, b, ctx, class| {
-            ctx.require(a == b || a != a, "equal", class, || format!("{:?} vs {:?}", a, b)); dbg_same(ctx, class, a, b);
+            ctx.require(a == b || (a != a && super::value_has_nan()), "equal", class, || format!("{:?} vs {:?}", a, b)); dbg_same(ctx, class, a, b);
             ctx.require(fb(a.alpha()) == fb(b.alpha()), "accessors", class, || "alpha".into());
             refit_same(ctx, class, &|| fp(a.fit(&ds2)), &|| fp(b.fit(&ds2)));
         });
         let model: MultinomialNb<F, usize> = vp.fit(&dsc).unwrap();
         rt(em, sw, "linfa-bayes::MultinomialNb", tag, Norm::SortMaps, &model, &|a, b, ctx, class| {
-            ctx.require(a == b || a != a, "equal", class, || format!("{:?} vs {:?}", a, b));
+            ctx.require(a == b || (a != a && super::value_has_nan()), "equal", class, || format!("{:?} vs {:?}", a, b));
             let pa = std::panic::catch_unwind(std::panic::AssertUnwindSafe(|| a.predict(&freshc))).ok();
             let pb = std::panic::catch_unwind(std::panic::AssertUnwindSafe(|| b.predict(&freshc))).ok();
             ctx.require(pa == pb, "predict", class, || "predictions differ".into());
@@ -296,7 +349,7 @@ fn nn_types<F: Fl>(em: &mut Em, rng: &mut Rng, sw: &mut Sweep) {
     for c in [CommonNearestNeighbour::LinearSearch, CommonNearestNeighbour::KdTree, CommonNearestNeighbour::BallTree] {
         let pts = pts.clone();
         rt(em, sw, "linfa-nn::CommonNearestNeighbour", tag, Norm::Exact, &c, &|a, b, ctx, class| {
-            ctx.require(a == b || a != a, "equal", class, || format!("{:?} vs {:?}", a, b)); dbg_same(ctx, class, a, b);
+            ctx.require(a == b || (a != a && super::value_has_nan()), "equal", class, || format!("{:?} vs {:?}", a, b)); dbg_same(ctx, class, a, b);
             let (ia, ib) = (a.from_batch(&pts, L2Dist).unwrap(), b.from_batch(&pts, L2Dist).unwrap());
             let q = pts.row(3);
             let ra: Vec<usize> = ia.k_nearest(q, 4).unwrap().into_iter().map(|x| x.1).collect();
@@ -308,7 +361,7 @@ fn nn_types<F: Fl>(em: &mut Em, rng: &mut Rng, sw: &mut Sweep) {
         let d = LpDist(F::cast(pw));
         let pts = pts.clone();
         rt(em, sw, "linfa-nn::LpDist", tag, Norm::Exact, &d, &|a, b, ctx, class| {
-            ctx.require(a == b || a != a, "equal", class, || format!("{:?} vs {:?}", a, b)); dbg_same(ctx, class, a, b);
+            ctx.require(a == b || (a != a && super::value_has_nan()), "equal", class, || format!("{:?} vs {:?}", a, b)); dbg_same(ctx, class, a, b);
             ctx.require(fb(a.distance(pts.row(0), pts.row(1))) == fb(b.distance(pts.row(0), pts.row(1))), "predict", class, || "distance differs".into());
         });
     }
@@ -354,9 +407,9 @@ fn clustering<F: Fl>(em: &mut Em, rng: &mut Rng, sw: &mut Sweep) {
             same_arr(ctx, "predict", class, "transform", &ma.transform(&fresh2), &mb.transform(&fresh2));
         };
         rt(em, sw, "linfa-clustering::KMeansParams", tag, Norm::Exact, &params, &|a, b, ctx, class| {
-            ctx.require(a == b || a != a, "equal", class, || format!("{:?} vs {:?}", a, b)); dbg_same(ctx, class, a, b);
+            ctx.require(a == b || (a != a && super::value_has_nan()), "equal", class, || format!("{:?} vs {:?}", a, b)); dbg_same(ctx, class, a, b);
             if para {
-                NONDET.fetch_add(1, std::sync::atomic::Ordering::Relaxed);
+                refit_skipped(class);
                 return;
             }
             refit_same(ctx, class, &|| fp(a.fit(&ds2)), &|| fp(b.fit(&ds2)));
@@ -368,10 +421,10 @@ fn clustering<F: Fl>(em: &mut Em, rng: &mut Rng, sw: &mut Sweep) {
         let vp = params.clone().check().unwrap();
         let ds2 = ds.clone();
         rt(em, sw, "linfa-clustering::KMeansValidParams", tag, Norm::Exact, &vp, &|a, b, ctx, class| {
-            ctx.require(a == b || a != a, "equal", class, || format!("{:?} vs {:?}", a, b)); dbg_same(ctx, class, a, b);
+            ctx.require(a == b || (a != a && super::value_has_nan()), "equal", class, || format!("{:?} vs {:?}", a, b)); dbg_same(ctx, class, a, b);
             ctx.require(a.n_runs() == b.n_runs() && fb(a.tolerance()) == fb(b.tolerance()) && a.max_n_iterations() == b.max_n_iterations() && a.n_clusters() == b.n_clusters() && a.init_method() == b.init_method() && a.rng() == b.rng(), "accessors", class, || "accessor differs".into());
             if para {
-                NONDET.fetch_add(1, std::sync::atomic::Ordering::Relaxed);
+                refit_skipped(class);
                 return;
             }
             refit_same(ctx, class, &|| fp(a.fit(&ds2)), &|| fp(b.fit(&ds2)));
@@ -385,7 +438,7 @@ fn clustering<F: Fl>(em: &mut Em, rng: &mut Rng, sw: &mut Sweep) {
         let ds2 = ds.clone();
         let fresh2 = fresh.clone();
         let gbehav = move |ma: &GaussianMixtureModel<F>, mb: &GaussianMixtureModel<F>, ctx: &mut Ctx, class: &str, clause: &str| {
-            ctx.require(ma == mb || ma != ma, if clause == "refit" { "refit" } else { "equal" }, class, || "models differ".into());
+            ctx.require(ma == mb || (ma != ma && super::value_has_nan()), if clause == "refit" { "refit" } else { "equal" }, class, || "models differ".into());
             dbg_same(ctx, class, ma, mb);
             same_arr(ctx, clause, class, "weights", ma.weights(), mb.weights());
             same_arr(ctx, clause, class, "means", ma.means(), mb.means());
@@ -395,7 +448,7 @@ fn clustering<F: Fl>(em: &mut Em, rng: &mut Rng, sw: &mut Sweep) {
             same_arr(ctx, "predict", class, "predict_proba", &ma.predict_proba(&fresh2), &mb.predict_proba(&fresh2));
         };
         rt(em, sw, "linfa-clustering::GmmParams", tag, Norm::Exact, &gp, &|a, b, ctx, class| {
-            ctx.require(a == b || a != a, "equal", class, || format!("{:?} vs {:?}", a, b)); dbg_same(ctx, class, a, b);
+            ctx.require(a == b || (a != a && super::value_has_nan()), "equal", class, || format!("{:?} vs {:?}", a, b)); dbg_same(ctx, class, a, b);
             refit_same(ctx, class, &|| fp(a.fit(&ds2)), &|| fp(b.fit(&ds2)));
         });
         let badg = GaussianMixtureModel::<F>::params_with_rng(0, Xoshiro256Plus::seed_from_u64(1)).tolerance(F::cast(-1.0));
@@ -405,7 +458,7 @@ fn clustering<F: Fl>(em: &mut Em, rng: &mut Rng, sw: &mut Sweep) {
         let gvp = gp.clone().check().unwrap();
         let ds2 = ds.clone();
         rt(em, sw, "linfa-clustering::GmmValidParams", tag, Norm::Exact, &gvp, &|a, b, ctx, class| {
-            ctx.require(a == b || a != a, "equal", class, || format!("{:?} vs {:?}", a, b)); dbg_same(ctx, class, a, b);
+            ctx.require(a == b || (a != a && super::value_has_nan()), "equal", class, || format!("{:?} vs {:?}", a, b)); dbg_same(ctx, class, a, b);
             refit_same(ctx, class, &|| fp(a.fit(&ds2)), &|| fp(b.fit(&ds2)));
         });
         if let Ok(model) = gvp.fit(&ds) {
@@ -417,20 +470,20 @@ fn clustering<F: Fl>(em: &mut Em, rng: &mut Rng, sw: &mut Sweep) {
         let dvp = Dbscan::params_with::<F, _, _>(2 + rng.below(3), L2Dist, nn.clone()).tolerance(F::cast(1.5)).check().unwrap();
         let x2 = x.clone();
         rt(em, sw, "linfa-clustering::DbscanValidParams", tag, Norm::Exact, &dvp, &|a, b, ctx, class| {
-            ctx.require(a == b || a != a, "equal", class, || format!("{:?} vs {:?}", a, b)); dbg_same(ctx, class, a, b);
+            ctx.require(a == b || (a != a && super::value_has_nan()), "equal", class, || format!("{:?} vs {:?}", a, b)); dbg_same(ctx, class, a, b);
             ctx.require(fb(a.tolerance()) == fb(b.tolerance()) && a.minimum_points() == b.minimum_points() && a.nn_algo() == b.nn_algo() && a.dist_fn() == b.dist_fn(), "accessors", class, || "accessor differs".into());
             refit_same(ctx, class, &|| fp::<_, String>(Ok(a.transform(&x2))), &|| fp::<_, String>(Ok(b.transform(&x2))));
         });
         let dvp1 = Dbscan::params_with::<F, _, _>(3, L1Dist, nn.clone()).tolerance(F::cast(2.0)).check().unwrap();
         let x2 = x.clone();
         rt(em, sw, "linfa-clustering::DbscanValidParams", tag, Norm::Exact, &dvp1, &|a, b, ctx, class| {
-            ctx.require(a == b || a != a, "equal", class, || format!("{:?} vs {:?}", a, b)); dbg_same(ctx, class, a, b);
+            ctx.require(a == b || (a != a && super::value_has_nan()), "equal", class, || format!("{:?} vs {:?}", a, b)); dbg_same(ctx, class, a, b);
             refit_same(ctx, class, &|| fp::<_, String>(Ok(a.transform(&x2))), &|| fp::<_, String>(Ok(b.transform(&x2))));
         });
         let op = Optics::params_with::<F, _, _>(2 + rng.below(3), L2Dist, nn.clone()).tolerance(F::cast([2.0, 100.0][rng.below(2)]));
         let x2 = x.clone();
         rt(em, sw, "linfa-clustering::OpticsParams", tag, Norm::Exact, &op, &|a, b, ctx, class| {
-            ctx.require(a == b || a != a, "equal", class, || format!("{:?} vs {:?}", a, b)); dbg_same(ctx, class, a, b);
+            ctx.require(a == b || (a != a && super::value_has_nan()), "equal", class, || format!("{:?} vs {:?}", a, b)); dbg_same(ctx, class, a, b);
             refit_same(ctx, class, &|| fp(a.transform(x2.view())), &|| fp(b.transform(x2.view())));
         });
         let bado = Optics::params_with::<F, _, _>(1, L2Dist, nn.clone()).tolerance(F::cast(-1.0));
@@ -440,20 +493,20 @@ fn clustering<F: Fl>(em: &mut Em, rng: &mut Rng, sw: &mut Sweep) {
         let ovp = op.clone().check().unwrap();
         let x2 = x.clone();
         rt(em, sw, "linfa-clustering::OpticsValidParams", tag, Norm::Exact, &ovp, &|a, b, ctx, class| {
-            ctx.require(a == b || a != a, "equal", class, || format!("{:?} vs {:?}", a, b)); dbg_same(ctx, class, a, b);
+            ctx.require(a == b || (a != a && super::value_has_nan()), "equal", class, || format!("{:?} vs {:?}", a, b)); dbg_same(ctx, class, a, b);
             ctx.require(fb(a.tolerance()) == fb(b.tolerance()) && a.minimum_points() == b.minimum_points() && a.nn_algo() == b.nn_algo() && a.dist_fn() == b.dist_fn(), "accessors", class, || "accessor differs".into());
             refit_same(ctx, class, &|| fp::<_, String>(Ok(a.transform(x2.view()))), &|| fp::<_, String>(Ok(b.transform(x2.view()))));
         });
         {
             let an = ovp.transform(x.view());
             rt(em, sw, "linfa-clustering::OpticsAnalysis", tag, Norm::Exact, &an, &|a: &OpticsAnalysis<F>, b, ctx, class| {
-                ctx.require(a == b || a != a, "equal", class, || "analysis differs".into()); dbg_same(ctx, class, a, b);
+                ctx.require(a == b || (a != a && super::value_has_nan()), "equal", class, || "analysis differs".into()); dbg_same(ctx, class, a, b);
                 let key = |o: &OpticsAnalysis<F>| -> Vec<(usize, Option<u64>, Option<u64>)> { o.iter().map(|s| (s.index(), s.core_distance().map(fb), s.reachability_distance().map(fb))).collect() };
                 ctx.require(key(a) == key(b), "accessors", class, || "sample accessors differ".into());
             });
             for s in an.iter().take(3) {
                 rt(em, sw, "linfa-clustering::Sample", tag, Norm::Exact, s, &|a: &Sample<F>, b, ctx, class| {
-                    ctx.require(a == b || a != a, "equal", class, || format!("{:?} vs {:?}", a, b));
+                    ctx.require(a == b || (a != a && super::value_has_nan()), "equal", class, || format!("{:?} vs {:?}", a, b));
                     dbg_same(ctx, class, a, b);
                     ctx.require(a.index() == b.index() && a.core_distance().map(fb) == b.core_distance().map(fb) && a.reachability_distance().map(fb) == b.reachability_distance().map(fb), "accessors", class, || "sample accessors differ".into());
                 });
@@ -478,7 +531,7 @@ fn elasticnet<F: Fl>(em: &mut Em, rng: &mut Rng, sw: &mut Sweep) {
         let vp = ElasticNet::<F>::params().penalty(F::cast(pen)).l1_ratio(F::cast(l1)).with_intercept(rng.coin()).max_iterations(50 + rng.below(100) as u32).tolerance(F::cast(1e-4)).check().unwrap();
         let ds2 = ds.clone();
         rt(em, sw, "linfa-elasticnet::ElasticNetValidParamsBase", tag, Norm::Exact, &vp, &|a, b, ctx, class| {
-            ctx.require(a == b || a != a, "equal", class, || format!("{:?} vs {:?}", a, b)); dbg_same(ctx, class, a, b);
+            ctx.require(a == b || (a != a && super::value_has_nan()), "equal", class, || format!("{:?} vs {:?}", a, b)); dbg_same(ctx, class, a, b);
             ctx.require(fb(a.penalty()) == fb(b.penalty()) && fb(a.l1_ratio()) == fb(b.l1_ratio()) && a.with_intercept() == b.with_intercept() && a.max_iterations() == b.max_iterations() && fb(a.tolerance()) == fb(b.tolerance()), "accessors", class, || "accessor differs".into());
             refit_same(ctx, class, &|| fp(a.fit(&ds2)), &|| fp(b.fit(&ds2)));
         });
@@ -494,7 +547,7 @@ fn elasticnet<F: Fl>(em: &mut Em, rng: &mut Rng, sw: &mut Sweep) {
         let vpm = MultiTaskElasticNet::<F>::params().penalty(F::cast(pen)).l1_ratio(F::cast(l1)).max_iterations(60).tolerance(F::cast(1e-4)).check().unwrap();
         let ds2 = dsm.clone();
         rt(em, sw, "linfa-elasticnet::ElasticNetValidParamsBase", tag, Norm::Exact, &vpm, &|a, b, ctx, class| {
-            ctx.require(a == b || a != a, "equal", class, || format!("{:?} vs {:?}", a, b)); dbg_same(ctx, class, a, b);
+            ctx.require(a == b || (a != a && super::value_has_nan()), "equal", class, || format!("{:?} vs {:?}", a, b)); dbg_same(ctx, class, a, b);
             refit_same(ctx, class, &|| fp(a.fit(&ds2)), &|| fp(b.fit(&ds2)));
         });
         if let Ok(m) = vpm.fit(&dsm) {
@@ -530,7 +583,7 @@ fn ftrl<F: Fl>(em: &mut Em, rng: &mut Rng, sw: &mut Sweep) {
         let params = Ftrl::<F>::params_with_rng(Xoshiro256Plus::seed_from_u64(rng.next())).alpha(F::cast(0.1 + rng.unit())).beta(F::cast(rng.unit())).l1_ratio(F::cast(rng.unit())).l2_ratio(F::cast(rng.unit()));
         let ds2 = ds.clone();
         rt(em, sw, "linfa-ftrl::FtrlParams", tag, Norm::Exact, &params, &|a, b, ctx, class| {
-            ctx.require(a == b || a != a, "equal", class, || format!("{:?} vs {:?}", a, b)); dbg_same(ctx, class, a, b);
+            ctx.require(a == b || (a != a && super::value_has_nan()), "equal", class, || format!("{:?} vs {:?}", a, b)); dbg_same(ctx, class, a, b);
             refit_same(ctx, class, &|| fp(a.fit_with(None, &ds2)), &|| fp(b.fit_with(None, &ds2)));
         });
         let bad = Ftrl::<F>::params().alpha(F::cast(-1.0));
@@ -540,7 +593,7 @@ fn ftrl<F: Fl>(em: &mut Em, rng: &mut Rng, sw: &mut Sweep) {
         let vp = params.clone().check().unwrap();
         let ds2 = ds.clone();
         rt(em, sw, "linfa-ftrl::FtrlValidParams", tag, Norm::Exact, &vp, &|a, b, ctx, class| {
-            ctx.require(a == b || a != a, "equal", class, || format!("{:?} vs {:?}", a, b)); dbg_same(ctx, class, a, b);
+            ctx.require(a == b || (a != a && super::value_has_nan()), "equal", class, || format!("{:?} vs {:?}", a, b)); dbg_same(ctx, class, a, b);
             ctx.require(fb(a.alpha()) == fb(b.alpha()) && fb(a.beta()) == fb(b.beta()) && fb(a.l1_ratio()) == fb(b.l1_ratio()) && fb(a.l2_ratio()) == fb(b.l2_ratio()) && a.rng() == b.rng(), "accessors", class, || "accessor differs".into());
             refit_same(ctx, class, &|| fp(a.fit_with(None, &ds2)), &|| fp(b.fit_with(None, &ds2)));
         });
@@ -582,13 +635,13 @@ fn ica<F: Fl>(em: &mut Em, rng: &mut Rng, sw: &mut Sweep) {
         let vp = FastIca::<F>::params().ncomponents(p).gfunc([GFunc::Logcosh(1.0), GFunc::Exp, GFunc::Cube][(it + rng.below(2)) % 3]).max_iter(100).tol(F::cast(1e-3)).random_state(rng.below(1000)).check().unwrap();
         let ds2 = ds.clone();
         rt(em, sw, "linfa-ica::FastIcaValidParams", tag, Norm::Exact, &vp, &|a, b, ctx, class| {
-            ctx.require(a == b || a != a, "equal", class, || format!("{:?} vs {:?}", a, b)); dbg_same(ctx, class, a, b);
+            ctx.require(a == b || (a != a && super::value_has_nan()), "equal", class, || format!("{:?} vs {:?}", a, b)); dbg_same(ctx, class, a, b);
             ctx.require(a.ncomponents() == b.ncomponents() && a.gfunc() == b.gfunc() && a.max_iter() == b.max_iter() && fb(a.tol()) == fb(b.tol()) && a.random_state() == b.random_state(), "accessors", class, || "accessor differs".into());
             refit_same(ctx, class, &|| fp(a.fit(&ds2)), &|| fp(b.fit(&ds2)));
         });
         if let Ok(m) = vp.fit(&ds) {
             rt(em, sw, "linfa-ica::FastIca", tag, Norm::Exact, &m, &|a: &FastIca<F>, b, ctx, class| {
-                ctx.require(a == b || a != a, "equal", class, || "models differ".into()); dbg_same(ctx, class, a, b);
+                ctx.require(a == b || (a != a && super::value_has_nan()), "equal", class, || "models differ".into()); dbg_same(ctx, class, a, b);
                 same_arr(ctx, "predict", class, "predict", &a.predict(&fresh), &b.predict(&fresh));
             });
         }
@@ -606,12 +659,12 @@ fn reduction(em: &mut Em, rng: &mut Rng, sw: &mut Sweep) {
         let params = Pca::params(1 + rng.below(p)).whiten(it % 2 == 1);
         let ds2 = ds.clone();
         rt(em, sw, "linfa-reduction::PcaParams", tag, Norm::Exact, &params, &|a, b, ctx, class| {
-            ctx.require(a == b || a != a, "equal", class, || format!("{:?} vs {:?}", a, b)); dbg_same(ctx, class, a, b);
+            ctx.require(a == b || (a != a && super::value_has_nan()), "equal", class, || format!("{:?} vs {:?}", a, b)); dbg_same(ctx, class, a, b);
             refit_same(ctx, class, &|| fp(a.fit(&ds2)), &|| fp(b.fit(&ds2)));
         });
         if let Ok(m) = params.fit(&ds) {
             rt(em, sw, "linfa-reduction::Pca", tag, Norm::Exact, &m, &|a: &Pca<f64>, b, ctx, class| {
-                ctx.require(a == b || a != a, "equal", class, || "models differ".into()); dbg_same(ctx, class, a, b);
+                ctx.require(a == b || (a != a && super::value_has_nan()), "equal", class, || "models differ".into()); dbg_same(ctx, class, a, b);
                 same_arr(ctx, "accessors", class, "components", a.components(), b.components());
                 same_arr(ctx, "accessors", class, "mean", a.mean(), b.mean());
                 same_arr(ctx, "accessors", class, "singular_values", a.singular_values(), b.singular_values());
@@ -637,7 +690,7 @@ fn pls<F: Fl>(em: &mut Em, rng: &mut Rng, sw: &mut Sweep) {
                 if let Ok(m) = $ty::<F>::params(k).scale(rng.coin()).fit(&ds) {
                     let ds3 = ds.clone();
                     rt(em, sw, $id, tag, Norm::Exact, &m, &|a: &$ty<F>, b, ctx, class| {
-                        ctx.require(a == b || a != a, "equal", class, || "models differ".into()); dbg_same(ctx, class, a, b);
+                        ctx.require(a == b || (a != a && super::value_has_nan()), "equal", class, || "models differ".into()); dbg_same(ctx, class, a, b);
                         same_arr(ctx, "accessors", class, "weights", a.weights().0, b.weights().0);
                         same_arr(ctx, "accessors", class, "loadings", a.loadings().1, b.loadings().1);
                         same_arr(ctx, "accessors", class, "rotations", a.rotations().0, b.rotations().0);
@@ -656,7 +709,7 @@ fn pls<F: Fl>(em: &mut Em, rng: &mut Rng, sw: &mut Sweep) {
         let sp = PlsSvd::<F>::params(k).scale(it == 0);
         let ds2 = ds.clone();
         rt(em, sw, "linfa-pls::PlsSvdParams", tag, Norm::Exact, &sp, &|a, b, ctx, class| {
-            ctx.require(a == b || a != a, "equal", class, || format!("{:?} vs {:?}", a, b)); dbg_same(ctx, class, a, b);
+            ctx.require(a == b || (a != a && super::value_has_nan()), "equal", class, || format!("{:?} vs {:?}", a, b)); dbg_same(ctx, class, a, b);
             let f = |p: &PlsSvdParams| -> String {
                 match Fit::<Array2<F>, Array2<F>, PlsError>::fit(p, &ds2) {
                     Ok(m) => {
@@ -680,7 +733,7 @@ fn kernel_svm<F: Fl>(em: &mut Em, rng: &mut Rng, sw: &mut Sweep) {
     for m in methods.iter() {
         let pts = pts.clone();
         rt(em, sw, "linfa-kernel::KernelMethod", tag, Norm::Exact, m, &|a, b, ctx, class| {
-            ctx.require(a == b || a != a, "equal", class, || format!("{:?} vs {:?}", a, b)); dbg_same(ctx, class, a, b);
+            ctx.require(a == b || (a != a && super::value_has_nan()), "equal", class, || format!("{:?} vs {:?}", a, b)); dbg_same(ctx, class, a, b);
             ctx.require(fb(a.distance(pts.row(0), pts.row(1))) == fb(b.distance(pts.row(0), pts.row(1))), "predict", class, || "kernel value differs".into());
         });
     }
@@ -697,7 +750,7 @@ fn kernel_svm<F: Fl>(em: &mut Em, rng: &mut Rng, sw: &mut Sweep) {
             let k: Kernel<F> = Kernel::params().kind(kind).method(methods[it % 3].clone()).transform(&x);
             let rhs: Array2<F> = records(rng, n, 2);
             rt(em, sw, "linfa-kernel::KernelBase", tag, Norm::Exact, &k, &|a: &Kernel<F>, b, ctx, class| {
-                ctx.require(a == b || a != a, "equal", class, || "kernels differ".into()); dbg_same(ctx, class, a, b);
+                ctx.require(a == b || (a != a && super::value_has_nan()), "equal", class, || "kernels differ".into()); dbg_same(ctx, class, a, b);
                 ctx.require(a.size() == b.size() && a.is_linear() == b.is_linear(), "accessors", class, || "size / is_linear".into());
                 same_arr(ctx, "accessors", class, "diagonal", &a.diagonal(), &b.diagonal());
                 same_arr(ctx, "accessors", class, "sum", &a.sum(), &b.sum());
@@ -719,7 +772,7 @@ fn kernel_svm<F: Fl>(em: &mut Em, rng: &mut Rng, sw: &mut Sweep) {
         };
         if let Ok(m) = base().fit(&dsb) {
             let sbehav = |a: &Svm<F, bool>, b: &Svm<F, bool>, ctx: &mut Ctx, class: &str| {
-                ctx.require(a == b || a != a, "equal", class, || "models differ".into()); dbg_same(ctx, class, a, b);
+                ctx.require(a == b || (a != a && super::value_has_nan()), "equal", class, || "models differ".into()); dbg_same(ctx, class, a, b);
                 ctx.require(a.nsupport() == b.nsupport() && fb(a.rho) == fb(b.rho) && a.alpha.iter().map(|v| fb(*v)).collect::<Vec<_>>() == b.alpha.iter().map(|v| fb(*v)).collect::<Vec<_>>(), "accessors", class, || "alpha / rho / nsupport".into());
                 ctx.require(a.to_string() == b.to_string(), "accessors", class, || "Display differs".into());
                 let (pa, pb): (Array1<bool>, Array1<bool>) = (a.predict(&fresh), b.predict(&fresh));
@@ -733,7 +786,7 @@ fn kernel_svm<F: Fl>(em: &mut Em, rng: &mut Rng, sw: &mut Sweep) {
         let dsp = Dataset::new(x.clone(), yl.mapv(|v| v == 1));
         if let Ok(m) = Svm::<F, Pr>::params().gaussian_kernel(F::cast(3.0)).pos_neg_weights(F::cast(2.0), F::cast(2.0)).fit(&dsp) {
             rt(em, sw, "linfa-svm::Svm", tag, Norm::Exact, &m, &|a: &Svm<F, Pr>, b, ctx, class| {
-                ctx.require(a == b || a != a, "equal", class, || "models differ".into()); dbg_same(ctx, class, a, b);
+                ctx.require(a == b || (a != a && super::value_has_nan()), "equal", class, || "models differ".into()); dbg_same(ctx, class, a, b);
                 let (pa, pb): (Array1<Pr>, Array1<Pr>) = (a.predict(&fresh), b.predict(&fresh));
                 ctx.require(pa.iter().map(|x| x.to_bits()).collect::<Vec<_>>() == pb.iter().map(|x| x.to_bits()).collect::<Vec<_>>(), "predict", class, || "probabilities differ".into());
             });
@@ -760,7 +813,7 @@ fn $fname(em: &mut Em, rng: &mut Rng, sw: &mut Sweep) {
         let q = if it == 0 { Svm::<F, F>::params().c_svr(10.0, Some(0.1)).linear_kernel() } else { Svm::<F, F>::params().nu_svr(0.5, Some(5.0)).gaussian_kernel(10.0) };
         if let Ok(m) = q.fit(&ds) {
             rt(em, sw, "linfa-svm::Svm", tag, Norm::Exact, &m, &|a: &Svm<F, F>, b, ctx, class| {
-                ctx.require(a == b || a != a, "equal", class, || "models differ".into()); dbg_same(ctx, class, a, b);
+                ctx.require(a == b || (a != a && super::value_has_nan()), "equal", class, || "models differ".into()); dbg_same(ctx, class, a, b);
                 let (pa, pb): (Array1<F>, Array1<F>) = (a.predict(&fresh), b.predict(&fresh));
                 same_arr(ctx, "predict", class, "predict", &pa, &pb);
             });
@@ -794,7 +847,7 @@ fn $fname(em: &mut Em, rng: &mut Rng, sw: &mut Sweep) {
         }
         let ds2 = dss.clone();
         rt(em, sw, "linfa-logistic::LogisticRegressionParams", tag, Norm::Exact, &params, &|a, b, ctx, class| {
-            ctx.require(a == b || a != a, "equal", class, || format!("{:?} vs {:?}", a, b)); dbg_same(ctx, class, a, b);
+            ctx.require(a == b || (a != a && super::value_has_nan()), "equal", class, || format!("{:?} vs {:?}", a, b)); dbg_same(ctx, class, a, b);
             refit_same(ctx, class, &|| fp(a.fit(&ds2)), &|| fp(b.fit(&ds2)));
         });
         let bad: LogisticRegression<F> = LogisticRegression::default().alpha(-1.0 as F);
@@ -804,13 +857,13 @@ fn $fname(em: &mut Em, rng: &mut Rng, sw: &mut Sweep) {
         let vp: ValidLogisticRegression<F> = params.clone().check().unwrap();
         let ds2 = dss.clone();
         rt(em, sw, "linfa-logistic::LogisticRegressionValidParams", tag, Norm::Exact, &vp, &|a, b, ctx, class| {
-            ctx.require(a == b || a != a, "equal", class, || format!("{:?} vs {:?}", a, b)); dbg_same(ctx, class, a, b);
+            ctx.require(a == b || (a != a && super::value_has_nan()), "equal", class, || format!("{:?} vs {:?}", a, b)); dbg_same(ctx, class, a, b);
             refit_same(ctx, class, &|| fp(a.fit(&ds2)), &|| fp(b.fit(&ds2)));
         });
         if let Ok(m) = vp.fit(&dss) {
             let m = if it == 1 { m.set_threshold(0.3 as F) } else { m };
             rt(em, sw, "linfa-logistic::FittedLogisticRegression", tag, Norm::Exact, &m, &|a: &FittedLogisticRegression<F, String>, b, ctx, class| {
-                ctx.require(a == b || a != a, "equal", class, || "models differ".into()); dbg_same(ctx, class, a, b);
+                ctx.require(a == b || (a != a && super::value_has_nan()), "equal", class, || "models differ".into()); dbg_same(ctx, class, a, b);
                 same_arr(ctx, "accessors", class, "params", a.params(), b.params());
                 ctx.require(fb(a.intercept()) == fb(b.intercept()) && a.labels() == b.labels(), "accessors", class, || "intercept / labels".into());
                 ctx.require(a.predict(&fresh) == b.predict(&fresh), "predict", class, || "predict differs".into());
@@ -830,18 +883,18 @@ fn $fname(em: &mut Em, rng: &mut Rng, sw: &mut Sweep) {
         }
         let ds2 = dsm.clone();
         rt(em, sw, "linfa-logistic::LogisticRegressionParams", tag, Norm::Exact, &mp, &|a, b, ctx, class| {
-            ctx.require(a == b || a != a, "equal", class, || format!("{:?} vs {:?}", a, b)); dbg_same(ctx, class, a, b);
+            ctx.require(a == b || (a != a && super::value_has_nan()), "equal", class, || format!("{:?} vs {:?}", a, b)); dbg_same(ctx, class, a, b);
             refit_same(ctx, class, &|| fp(a.fit(&ds2)), &|| fp(b.fit(&ds2)));
         });
         let mvp: ValidMultiLogisticRegression<F> = mp.clone().check().unwrap();
         let ds2 = dsm.clone();
         rt(em, sw, "linfa-logistic::LogisticRegressionValidParams", tag, Norm::Exact, &mvp, &|a, b, ctx, class| {
-            ctx.require(a == b || a != a, "equal", class, || format!("{:?} vs {:?}", a, b)); dbg_same(ctx, class, a, b);
+            ctx.require(a == b || (a != a && super::value_has_nan()), "equal", class, || format!("{:?} vs {:?}", a, b)); dbg_same(ctx, class, a, b);
             refit_same(ctx, class, &|| fp(a.fit(&ds2)), &|| fp(b.fit(&ds2)));
         });
         if let Ok(m) = mvp.fit(&dsm) {
             rt(em, sw, "linfa-logistic::MultiFittedLogisticRegression", tag, Norm::Exact, &m, &|a: &MultiFittedLogisticRegression<F, usize>, b, ctx, class| {
-                ctx.require(a == b || a != a, "equal", class, || "models differ".into()); dbg_same(ctx, class, a, b);
+                ctx.require(a == b || (a != a && super::value_has_nan()), "equal", class, || "models differ".into()); dbg_same(ctx, class, a, b);
                 same_arr(ctx, "accessors", class, "params", a.params(), b.params());
                 same_arr(ctx, "accessors", class, "intercept", a.intercept(), b.intercept());
                 ctx.require(a.classes() == b.classes(), "accessors", class, || "classes".into());
@@ -899,7 +952,7 @@ fn trees<F: Fl>(em: &mut Em, rng: &mut Rng, sw: &mut Sweep) {
         let params = DecisionTree::<F, usize>::params().split_quality([SplitQuality::Gini, SplitQuality::Entropy][it % 2]).max_depth(if det { None } else { [None, Some(2), Some(5)][rng.below(3)] }).min_weight_split(if det { 2.0 } else { 2.0 + rng.below(3) as f32 }).min_weight_leaf(1.0).min_impurity_decrease(F::cast(1e-5));
         let ds2 = ds.clone();
         rt(em, sw, "linfa-trees::DecisionTreeParams", tag, Norm::Exact, &params, &|a, b, ctx, class| {
-            ctx.require(a == b || a != a, "equal", class, || format!("{:?} vs {:?}", a, b)); dbg_same(ctx, class, a, b);
+            ctx.require(a == b || (a != a && super::value_has_nan()), "equal", class, || format!("{:?} vs {:?}", a, b)); dbg_same(ctx, class, a, b);
             if det {
                 refit_same(ctx, class, &|| tree_fp(a.fit(&ds2), &fresh), &|| tree_fp(b.fit(&ds2), &fresh));
             }
@@ -911,7 +964,7 @@ fn trees<F: Fl>(em: &mut Em, rng: &mut Rng, sw: &mut Sweep) {
         let vp = params.check().unwrap();
         let ds2 = ds.clone();
         rt(em, sw, "linfa-trees::DecisionTreeValidParams", tag, Norm::Exact, &vp, &|a, b, ctx, class| {
-            ctx.require(a == b || a != a, "equal", class, || format!("{:?} vs {:?}", a, b)); dbg_same(ctx, class, a, b);
+            ctx.require(a == b || (a != a && super::value_has_nan()), "equal", class, || format!("{:?} vs {:?}", a, b)); dbg_same(ctx, class, a, b);
             ctx.require(a.split_quality() == b.split_quality() && a.max_depth() == b.max_depth() && a.min_weight_split().to_bits() == b.min_weight_split().to_bits() && a.min_weight_leaf().to_bits() == b.min_weight_leaf().to_bits() && fb(a.min_impurity_decrease()) == fb(b.min_impurity_decrease()), "accessors", class, || "accessor differs".into());
             if det {
                 refit_same(ctx, class, &|| tree_fp(a.fit(&ds2), &fresh), &|| tree_fp(b.fit(&ds2), &fresh));
@@ -919,15 +972,15 @@ fn trees<F: Fl>(em: &mut Em, rng: &mut Rng, sw: &mut Sweep) {
         });
         if let Ok(m) = vp.fit(&ds) {
             rt(em, sw, "linfa-trees::DecisionTree", tag, Norm::Exact, &m, &|a: &DecisionTree<F, usize>, b, ctx, class| {
-                ctx.require(a == b || a != a, "equal", class, || "trees differ".into()); dbg_same(ctx, class, a, b);
-                ctx.require(a.max_depth() == b.max_depth() && a.num_leaves() == b.num_leaves() && sorted(a.features()) == sorted(b.features()), "accessors", class, || "depth / leaves / features".into());
+                ctx.require(a == b || (a != a && super::value_has_nan()), "equal", class, || "trees differ".into()); dbg_same(ctx, class, a, b);
+                ctx.require(a.max_depth() == b.max_depth() && a.num_leaves() == b.num_leaves() && a.features() == b.features(), "accessors", class, || "depth / leaves / features".into());
                 ctx.require(a.feature_importance().iter().map(|v| fb(*v)).collect::<Vec<_>>() == b.feature_importance().iter().map(|v| fb(*v)).collect::<Vec<_>>(), "accessors", class, || "feature_importance".into());
                 let key = |t: &DecisionTree<F, usize>| -> Vec<(bool, usize, Option<usize>, usize, u64, u64, Option<String>)> { t.iter_nodes().map(|n| (n.is_leaf(), n.depth(), n.prediction(), n.split().0, fb(n.split().1), fb(n.split().2), n.feature_name().cloned())).collect() };
                 ctx.require(key(a) == key(b), "accessors", class, || "node walk differs".into());
                 ctx.require(a.predict(&fresh) == b.predict(&fresh), "predict", class, || "predict differs".into());
             });
             rt(em, sw, "linfa-trees::TreeNode", tag, Norm::Exact, m.root_node(), &|a: &TreeNode<F, usize>, b, ctx, class| {
-                ctx.require(a == b || a != a, "equal", class, || "nodes differ".into()); dbg_same(ctx, class, a, b);
+                ctx.require(a == b || (a != a && super::value_has_nan()), "equal", class, || "nodes differ".into()); dbg_same(ctx, class, a, b);
                 ctx.require(a.is_leaf() == b.is_leaf() && a.depth() == b.depth() && a.prediction() == b.prediction() && a.split().0 == b.split().0 && fb(a.split().1) == fb(b.split().1), "accessors", class, || "node accessors".into());
             });
         }
@@ -952,14 +1005,14 @@ fn preprocessing<F: Fl>(em: &mut Em, rng: &mut Rng, sw: &mut Sweep) {
         for sp in all.iter() {
             let ds2 = ds.clone();
             rt(em, sw, "linfa-preprocessing::LinearScalerParams", tag, Norm::Exact, sp, &|a, b, ctx, class| {
-                ctx.require(a == b || a != a, "equal", class, || format!("{:?} vs {:?}", a, b)); dbg_same(ctx, class, a, b);
+                ctx.require(a == b || (a != a && super::value_has_nan()), "equal", class, || format!("{:?} vs {:?}", a, b)); dbg_same(ctx, class, a, b);
                 refit_same(ctx, class, &|| fp(a.fit(&ds2)), &|| fp(b.fit(&ds2)));
             });
             if let Ok(m) = sp.fit(&ds) {
                 rt(em, sw, "linfa-preprocessing::ScalingMethod", tag, Norm::Exact, m.method(), eqb!());
                 let fresh = fresh.clone();
                 rt(em, sw, "linfa-preprocessing::LinearScaler", tag, Norm::Exact, &m, &|a: &LinearScaler<F>, b, ctx, class| {
-                    ctx.require(a == b || a != a, "equal", class, || "scalers differ".into()); dbg_same(ctx, class, a, b);
+                    ctx.require(a == b || (a != a && super::value_has_nan()), "equal", class, || "scalers differ".into()); dbg_same(ctx, class, a, b);
                     same_arr(ctx, "accessors", class, "offsets", a.offsets(), b.offsets());
                     same_arr(ctx, "accessors", class, "scales", a.scales(), b.scales());
                     ctx.require(a.method() == b.method(), "accessors", class, || "method".into());
@@ -970,7 +1023,7 @@ fn preprocessing<F: Fl>(em: &mut Em, rng: &mut Rng, sw: &mut Sweep) {
         for ns in [NormScaler::l1(), NormScaler::l2(), NormScaler::max()] {
             let fresh = fresh.clone();
             rt(em, sw, "linfa-preprocessing::NormScaler", tag, Norm::Exact, &ns, &|a, b, ctx, class| {
-                ctx.require(a == b || a != a, "equal", class, || format!("{:?} vs {:?}", a, b)); dbg_same(ctx, class, a, b);
+                ctx.require(a == b || (a != a && super::value_has_nan()), "equal", class, || format!("{:?} vs {:?}", a, b)); dbg_same(ctx, class, a, b);
                 same_arr(ctx, "predict", class, "transform", &a.transform(fresh.clone()), &b.transform(fresh.clone()));
             });
         }
@@ -978,14 +1031,14 @@ fn preprocessing<F: Fl>(em: &mut Em, rng: &mut Rng, sw: &mut Sweep) {
             rt(em, sw, "linfa-preprocessing::WhiteningMethod", tag, Norm::Exact, &wm, eqb!());
             let ds2 = ds.clone();
             rt(em, sw, "linfa-preprocessing::Whitener", tag, Norm::Exact, &w, &|a, b, ctx, class| {
-                ctx.require(a == b || a != a, "equal", class, || format!("{:?} vs {:?}", a, b)); dbg_same(ctx, class, a, b);
+                ctx.require(a == b || (a != a && super::value_has_nan()), "equal", class, || format!("{:?} vs {:?}", a, b)); dbg_same(ctx, class, a, b);
                 refit_same(ctx, class, &|| fp(a.fit(&ds2)), &|| fp(b.fit(&ds2)));
             });
             if it == 0 || rng.coin() {
                 if let Ok(m) = w.fit(&ds) {
                     let fresh = fresh.clone();
                     rt(em, sw, "linfa-preprocessing::FittedWhitener", tag, Norm::Exact, &m, &|a: &FittedWhitener<F>, b, ctx, class| {
-                        ctx.require(a == b || a != a, "equal", class, || "whiteners differ".into()); dbg_same(ctx, class, a, b);
+                        ctx.require(a == b || (a != a && super::value_has_nan()), "equal", class, || "whiteners differ".into()); dbg_same(ctx, class, a, b);
                         same_arr(ctx, "accessors", class, "transformation_matrix", &a.transformation_matrix(), &b.transformation_matrix());
                         same_arr(ctx, "accessors", class, "mean", &a.mean(), &b.mean());
                         same_arr(ctx, "predict", class, "transform", &a.transform(fresh.clone()), &b.transform(fresh.clone()));
